@@ -19,7 +19,7 @@ EXPLANATION = (
     "(AC6) quad's apply calls agree with forward's split; (I) no isinstance(v, Tensor) test after v was coerced with "
     "torch.as_tensor (reaching definitions) - number-valued limits must not get a gradient; (Z) no seq[-n:] / seq[:-n] "
     "with an unguarded count n that can be 0; (L) Leibniz terms: -f(xl) for the lower, +f(xu) for the upper limit, each None "
-    "exactly when the limit was not a tensor, packing/unpacking order of the saved limits agrees. NOT decided: accuracy of "
+    "exactly when the limit was not a tensor, packing/unpacking order of the saved limits agrees. (AC16) the values of the incoming cotangent never steer control flow in backward; NOT decided: accuracy of "
     "the derivative integral.")
 ASSUMPTIONS = ["torch.autograd semantics", "leggauss implements the rule (C12)"]
 
